@@ -52,7 +52,7 @@ PROPS = {
         assumptions=['retransmission discipline over whole histories is decided by the oracle + correspondence of the resend bookkeeping, not by a theorem']),
     'C03': dict(
         module='Props.C03', level='proof',
-        profiles=dict(quick=[('lifecycle', 15, 1), ('lifecyclebfs', 300, 1)], thorough=[('lifecycle', 120, 8), ('lifecyclebfs', 3000, 1), ('life', 150, 4), ('policy', 1000, 1)]),
+        profiles=dict(quick=[('lifecycle', 15, 1), ('lifecyclebfs', 300, 1), ('parse', 20, 1)], thorough=[('lifecycle', 120, 8), ('lifecyclebfs', 3000, 1), ('life', 150, 4), ('policy', 1000, 1), ('parse', 200, 2)]),
         explanation='silent states and wire armour as theorems (Props.C03); Go oracle searches every wire output (raw, base64-decoded, reassembled fragments) for every text sent while encrypted / finished / under required encryption over lifecycle histories under random policy sets',
         assumptions=['secrecy of AES-CTR and of the DH-derived keys is assumed (ideal crypto)', 'noninterference of the other message fields is checked by the oracle, not proved']),
     'C01': dict(
@@ -82,7 +82,7 @@ PROPS = {
         assumptions=['soundness of the zero-knowledge proofs against non-degenerate cheating is computational: covered by generated inputs only', 'known finding: OTRv2 accepts degenerate group elements (test-pinned)']),
     'C13': dict(
         module='Props.C13', level='proof',
-        profiles=dict(quick=[('parse', 150, 1), ('life', 25, 1), ('keyfile', 150, 1), ('ake', 60, 1), ('smp', 40, 1)], thorough=[('parse', 1500, 8), ('life', 300, 8), ('keyfile', 2000, 4), ('tags', 100, 2), ('frag', 40, 2), ('ake', 600, 4)]),
+        profiles=dict(quick=[('parse', 150, 1), ('life', 25, 1), ('keyfile', 150, 1), ('ake', 60, 1), ('smp', 40, 1), ('tags', 40, 1)], thorough=[('parse', 1500, 8), ('life', 300, 8), ('keyfile', 2000, 4), ('tags', 100, 2), ('frag', 40, 2), ('ake', 600, 4)]),
         explanation='total model with explicit panic outcomes; theorems: complete list of panic sites reachable from a data message, no panic under the session invariants, allocation bound of ExtractMPIs (Props.C13); Go harness runs every public parser and Receive in every conversation state on structured/mutated/raw input under recover with time and allocation measurement, a usability probe afterwards, and fails or shortens the k-th randomness read for every k',
         assumptions=['the key-file reader is run in a worker process so that a stack overflow or hang is observed rather than fatal', 'Go runtime behaviour (stack, GC) is observed, not modelled']),
     'C08': dict(
